@@ -112,6 +112,9 @@ func (d *AuthGrid) Build() *World {
 	w.Invoke(cnt.Hash, al, "put", d.blobPlain, []byte("sig"), key33, []byte("tok")) // a live container without the meta flag
 	w.Invoke(cnt.Hash, al, "addNextEpochNodes", d.cid, int64(0), []any{d.sn.Pub()})
 	w.Invoke(cnt.Hash, al, "commitContainerListUpdate", d.cid, []any{int64(1)})
+	// ... plus a pending roster for the next epoch and a stored size estimation (state an upgrade must carry over)
+	w.Invoke(cnt.Hash, al, "addNextEpochNodes", d.cid, int64(0), []any{d.x.Pub()})
+	w.Invoke(cnt.Hash, []neotest.Signer{d.u.S, d.sn.S}, "putContainerSize", int64(1), d.cid, int64(5), d.sn.Pub())
 	w.Invoke(id.Hash, al, "addKey", d.ownerID, []any{d.sn.Pub()})
 	// a name with a record
 	w.FundGAS(d.u.Hash, 100*gasUnit)
